@@ -266,7 +266,12 @@ fn rules_tast(path: &str) -> Result<Value, String> {
         let (k, v) = h.iter().next().unwrap();
         let key = k.as_str().unwrap_or("");
         match key {
-            "t" | "T" | "ct" | "CT" | "ot" | "OT" => json!({"k": "T", "ne": v.as_str().map(|s| !s.trim().is_empty()).unwrap_or(false)}),
+            "t" | "T" | "ct" | "CT" | "ot" | "OT" => {
+                // the literal as the engine stores it (Replacement::build): ct / ot carry their indicator characters
+                let raw = v.as_str().unwrap_or("");
+                let stored = match key { "t" | "T" => raw.to_string(), "ct" | "CT" => format!("\u{F8FE}{}", raw), _ => format!("\u{F8FD}{}\u{F8FD}", raw) };
+                json!({"k": "T", "ne": !raw.trim().is_empty(), "text": stored, "plain": v.as_str().is_some()})
+            }
             "x" => json!({"k": "X", "x": v.as_str().unwrap_or("")}),
             "pause" | "rate" | "pitch" | "volume" | "audio" | "gender" | "voice" | "spell" | "SPELL" | "bookmark" | "pronounce" | "PRONOUNCE" =>
                 json!({"k": "S", "cmd": key.to_ascii_lowercase(), "body": if v.as_hash().is_some() && key.to_ascii_lowercase() != "pronounce" { body(v, "replace") } else { vec![] }}),
